@@ -13,6 +13,10 @@ records exist when retry_attempts <= 0.  Each transition function is executed fr
                        healthy, or its retry window has elapsed (now - failed_time > retry_timeout, attempts < retry_attempts),
                        or it is being evicted; otherwise default_val is returned and nothing changes; success clears the
                        record; only the server's own exception escapes, never with ignore_exc; no other server leaves rotation
+  _safely_run_set_many the twin for batches (with _set_many inlined): the same contact rule, with the batch and the caller's
+                       arguments; a connection failure (OSError) is ALWAYS recorded (failure record with its time, or evicted) -
+                       the clause that failed with ignore_exc before /repo 450311b (_set_many swallowed the error); the client
+                       table is untouched (frame clause, also for _safely_run_func)
   _retry_dead          nothing changes unless a check is due; a due check is recorded (last check time = now); only servers
                        dead for longer than dead_timeout become candidates; no server leaves rotation
   every single-key method (with _get_client / _run_cmd inlined): a no-contact raise is only "all servers down", never with
@@ -28,7 +32,7 @@ TRUSTED = ["A-dict (membership, pop/KeyError, enumeration of a dict's keys)", "R
 ASSUMPTIONS = ["retry_timeout < dead_timeout", "inner client calls do not touch the HashClient", "reading of 'a failing server': runs of consecutive failing contacts"]
 NOT_COVERED = ["timing lemmas L1-L3 (window bounds, recovery) as machine-checked history lemmas: covered by the per-transition contracts and the bounded replay only",
                "_retry_dead never raising (needs pairwise distinctness of the candidate list: A-dict enumeration argument undecided by the solvers)",
-               "_safely_run_set_many / multi-key paths", "non-key-addressed operations (flush_all, stats, close, quit)"]
+               "the list of failed keys returned by _safely_run_set_many (key sets are opaque: A-filter)", "non-key-addressed operations (flush_all, stats, close, quit)"]
 BUDGET = {"quick": 30, "thorough": 120}
 REPLAY_UNDECIDED = True
 FILTER_BY_PROPERTY = True
@@ -38,6 +42,7 @@ def build(E, tier):
     hm.verify_mark_failed(E, "C13")
     hm.verify_remove_server(E, "C13")
     hm.verify_safely_run_func(E, "C13")
+    hm.verify_safely_run_set_many(E, "C13")
     hm.verify_retry_dead(E, "C13")
     hm.verify_hash_single(E)
 
